@@ -1109,6 +1109,7 @@ void case_constraints(vf::ctx_t& c)
     std::string  id, desc;
     double       mu_abs_err = 0.0;
     rfunction_t  inner;
+    std::string  inner_id;
 
     const auto make_quadratic = [&](constraint::quadratic_t& q)
     {
@@ -1177,6 +1178,7 @@ void case_constraints(vf::ctx_t& c)
         n     = static_cast<int>(inner->size());
         f     = constraint::functional_t{*inner};
         desc  = fdesc;
+        inner_id = "(" + inner->type_id() + ")"; // the wrapped function is part of WHAT failed
     };
 
     switch (kind)
@@ -1262,7 +1264,7 @@ void case_constraints(vf::ctx_t& c)
         constraint::functional_equality_t f;
         make_functional(f);
         ct = std::move(f);
-        id = "constraint::functional_equality_t";
+        id = "constraint::functional_equality_t" + inner_id;
         break;
     }
     default:
@@ -1270,7 +1272,7 @@ void case_constraints(vf::ctx_t& c)
         constraint::functional_inequality_t f;
         make_functional(f);
         ct = std::move(f);
-        id = "constraint::functional_inequality_t";
+        id = "constraint::functional_inequality_t" + inner_id;
         break;
     }
     }
@@ -1303,7 +1305,7 @@ void case_constraints(vf::ctx_t& c)
         seeds.push_back(x);
     }
     check_convexity(c, o, random_pairs(rng, n, 12, 1e-3, 10.0, o.box, seeds), 3, 100, 10.0, t);
-    c.count("kind_" + id.substr(12));
+    c.count("kind_" + id.substr(12, id.find('(') == std::string::npos ? std::string::npos : id.find('(') - 12));
     if (o.convex)
     {
         c.count("constraints_declared_convex");
